@@ -36,6 +36,10 @@
       that is not acknowledged (nor in a downtime, nor waiting for its first notification)
                                                                                reminder_withheld_while_acked,
                                                                                reminder_iff_unhandled_hard_problem
+    … and by the handler that re-sends what was withheld (`Checkable::FireSuppressedNotifications`, the checkable's
+      5 s timer): while acknowledged the stash stays and nothing is requested; after the clearing the owed notification
+      goes out once and the stash is empty                                     stash_kept_while_acked,
+                                                                               stash_released_after_clearing
     "exactly one Acknowledgement notification" — none from a paused object (the active zone member sends it), the
       set event in any case                                                    ack_notify_once (with the paused bit)
     "is refused" — and nothing else is                                         refusal_justified
@@ -67,6 +71,7 @@ structure SpecSt where
   suppP : Bool := false   -- stashed state notifications at the previous look
   suppR : Bool := false
   paused : Bool := false  -- from the pause operations
+  before : SState := .ok  -- the state the object was in (OK unless hard) before the oldest stashed state notification
   deriving Repr, DecidableEq
 
 def specInit : SpecSt :=
@@ -78,6 +83,7 @@ inductive Clause
   | handledIff | problemWithheld | commentsRemoved
   | rawConsistent | severityAck | expiryStored | withheldStashed | stashFrame | notifIffDue | refusalJustified
   | ackComment | removalComments | commentTimer | commentsFrame | reminderWithheld | reminderIff
+  | stashWithheld | stashReleased
   deriving Repr, DecidableEq
 
 def Clause.name : Clause → String
@@ -111,6 +117,8 @@ def Clause.name : Clause → String
   | .commentsFrame => "comments_only_change_as_stated"
   | .reminderWithheld => "reminder_withheld_while_acked"
   | .reminderIff => "reminder_iff_unhandled_hard_problem"
+  | .stashWithheld => "stash_kept_while_acked"
+  | .stashReleased => "stash_released_after_clearing"
 
 /-- The requested expiry has passed at `now`. -/
 def ranOut (sp : SpecSt) (now : Int) : Bool :=
@@ -167,10 +175,13 @@ def quiet (sp : SpecSt) (o : Obs) : List (Bool × Clause) :=
     result, refused acknowledge, timer pump, downtime, pause): it is gone iff its expiry has passed — then with one
     cleared event —, nothing is set, nothing is notified; the raw attribute is still what it was unless a reader inside
     the operation already noticed the expiry. -/
-def lookChecks (sp : SpecSt) (op : Op) (inDt : Bool) (frame : Clause) (o : Obs) : List (Bool × Clause) :=
+def lookCore (sp : SpecSt) (op : Op) (inDt : Bool) (frame : Clause) (o : Obs) : List (Bool × Clause) :=
   [ (ranOut sp op.now && o.ack != .none, .expiryClears), (o.ack != ackAt sp op.now, frame),
     (o.raw != sp.ack && o.raw != o.ack, .rawConsistent) ] ++
-    common sp op o inDt 0 (if ranOut sp op.now then 1 else 0) 0 ++ quiet sp o
+    common sp op o inDt 0 (if ranOut sp op.now then 1 else 0) 0
+
+def lookChecks (sp : SpecSt) (op : Op) (inDt : Bool) (frame : Clause) (o : Obs) : List (Bool × Clause) :=
+  lookCore sp op inDt frame o ++ quiet sp o
 
 /-- Check one (operation, observation) pair.  `sp` is the bookkeeping before the operation. -/
 def specStep (c : Cfg) (sp : SpecSt) (op : Op) (o : Obs) : Option Clause :=
@@ -257,6 +268,23 @@ def specStep (c : Cfg) (sp : SpecSt) (op : Op) (o : Obs) : Option Clause :=
            [ (o.comments != sp.comments, .commentsFrame),
              (o.nRem != (if sp.stype == .hard && !isOK c.kind sp.state && !sp.suppP && !sp.inDt && o.ack == .none then 1 else 0),
                .reminderIff) ])
+  -- "(to be handled by C02 afterwards)": a run of the suppressed-notification handler neither sets nor clears anything;
+  -- while the object is acknowledged (or in a downtime, or paused) what was withheld stays withheld — nothing requested,
+  -- the stash as it was —; once it is neither, and in a hard state, the stash is emptied and the notification that is
+  -- still owed — the current state differs from the one before the suppression — requested once, under the type of the
+  -- current state
+  | .fire _ =>
+    let release := (sp.suppP || sp.suppR) && !sp.paused && !sp.inDt && o.ack == .none && sp.stype == .hard
+    let owed := release && changed c sp.before sp.state
+    let recovery := isOK c.kind sp.state
+    first (lookCore sp op sp.inDt .ackFrame o ++
+           [ ((o.nProbN != 0 || o.nRecN != 0) && o.ack != .none, .problemWithheld),
+             ((o.ack != .none || sp.inDt || sp.paused) &&
+                (o.nProbN != 0 || o.nRecN != 0 || o.suppP != sp.suppP || o.suppR != sp.suppR), .stashWithheld),
+             (o.nProbN != (if owed && !recovery then 1 else 0) || o.nRecN != (if owed && recovery then 1 else 0) ||
+              o.suppP != (sp.suppP && !release) || o.suppR != (sp.suppR && !release), .stashReleased),
+             (o.comments != sp.comments, .commentsFrame),
+             (o.nRem != 0, .reminderIff) ])
 
 /-- Bookkeeping after the look: read off the observation; the requested expiry is remembered when an
     acknowledgement is accepted and forgotten when none is set any more. -/
@@ -269,7 +297,13 @@ def specNext (sp : SpecSt) (op : Op) (o : Obs) : SpecSt :=
     stype := o.stype, attempt := o.attempt, suppP := o.suppP, suppR := o.suppR,
     paused := (match op with
                | .pause on _ => on
-               | _ => sp.paused) }
+               | _ => sp.paused),
+    -- an accepted result that stashes a state notification into an empty stash remembers the state it found
+    before := (match op with
+               | .result _ _ _ _ =>
+                 if o.acc && !(sp.suppP || sp.suppR) && (o.suppP || o.suppR) then (if sp.stype == .hard then sp.state else .ok)
+                 else sp.before
+               | _ => sp.before) }
 
 def specTrace (c : Cfg) : SpecSt → List (Op × Obs) → Option Clause
   | _, [] => none
